@@ -64,7 +64,7 @@ func scenarios(quick bool) []scenario {
 	if !quick {
 		ss = append(ss,
 			scenario{"S4 create channel || delete channel || write existing",
-				cz.Config{GridN: 5, AutoCommit: true, Persist: always(), Channels: []cesium.ChannelKey{cz.T, cz.I64, cz.U8}}, base,
+				cz.Config{GridN: 5, AutoCommit: true, Persist: always(), Channels: []cesium.ChannelKey{cz.T, cz.I64, cz.U8}, BusyIsLegal: true}, base,
 				[][]string{{"mkch 3"}, {"rmch 4"}, {"open 0 all 3 0", "write 0 1", "close 0"}}},
 			scenario{"S5 write (lazy persist) || read || garbage collect",
 				cz.Config{GridN: 5, AutoCommit: true, Channels: two, GC: 0.0000001, FileCap: 1}, base,
@@ -149,15 +149,31 @@ func body(sc scenario) schedx.Body {
 		}
 		errs := make([]string, len(sc.threads))
 		var fs []func()
+		g := curGate
 		for i, ops := range sc.threads {
 			fs = append(fs, func() {
+				holding := false
 				defer func() {
 					if p := recover(); p != nil {
 						errs[i] = fmt.Sprintf("panic: %v", p)
 					}
+					if g != nil && holding {
+						g.exited[i] = true
+						g.ack <- struct{}{}
+					}
 				}()
-				for _, op := range ops {
-					if err := apply(w, op); err != nil {
+				for k, op := range ops {
+					if g != nil {
+						<-g.turn[i]
+						holding = true
+					}
+					err := apply(w, op)
+					if g != nil {
+						g.exited[i] = err != nil || k == len(ops)-1
+						holding = false
+						g.ack <- struct{}{}
+					}
+					if err != nil {
 						errs[i] = err.Error()
 						return
 					}
@@ -334,6 +350,14 @@ func dbody(sc dscenario) schedx.Body {
 	}
 }
 
+func opCounts(threads [][]string) []int {
+	var c []int
+	for _, ops := range threads {
+		c = append(c, len(ops))
+	}
+	return c
+}
+
 func sequential(threads ...func()) bool {
 	for _, f := range threads {
 		f()
@@ -341,34 +365,87 @@ func sequential(threads ...func()) bool {
 	return false
 }
 
-// serialRefs returns the outcomes of running the threads one after another in every
-// order: for scenarios whose operations commute they are all equal; where they do not (a
-// write into a range a concurrent delete covers) each order is a legal serial result.
-func serialRefs(t *testing.T, b schedx.Body, n int) map[string]bool {
+// gate hands the turn to one thread at a time, one operation per turn: a serial execution
+// of an interleaving of the threads' operations.
+type gate struct {
+	turn   []chan struct{}
+	ack    chan struct{}
+	exited []bool
+}
+
+// curGate is set while a reference outcome is being computed (never during exploration).
+var curGate *gate
+
+// serialRefs returns the outcomes of every serial execution of the operations: each
+// operation runs to completion before the next starts, in every order that keeps each
+// thread's own order (counts[i] operations for thread i). The property speaks of a serial
+// order of operations, not of threads: a channel delete refused because another thread's
+// writer is open at that moment is such an order. Where operations do not commute (a write
+// into a range a concurrent delete covers) each order is a legal serial result. With
+// counts == nil every thread is a single operation.
+func serialRefs(t *testing.T, b schedx.Body, n int, counts []int) map[string]bool {
 	out := map[string]bool{}
-	perm := make([]int, n)
-	for i := range perm {
-		perm[i] = i
+	if counts == nil {
+		counts = make([]int, n)
+		for i := range counts {
+			counts[i] = 1
+		}
 	}
-	var rec func(k int)
-	rec = func(k int) {
-		if k == n {
-			p := append([]int{}, perm...)
+	total := 0
+	for _, c := range counts {
+		total += c
+	}
+	left := append([]int{}, counts...)
+	order := make([]int, 0, total)
+	gated := total > n
+	var rec func()
+	rec = func() {
+		if len(order) == total {
+			p := append([]int{}, order...)
+			if !gated {
+				out[b(t, func(threads ...func()) bool {
+					for _, i := range p {
+						threads[i]()
+					}
+					return false
+				})] = true
+				return
+			}
+			g := &gate{ack: make(chan struct{}), exited: make([]bool, n)}
+			for i := 0; i < n; i++ {
+				g.turn = append(g.turn, make(chan struct{}))
+			}
+			curGate = g
 			out[b(t, func(threads ...func()) bool {
-				for _, i := range p {
-					threads[i]()
+				var wg sync.WaitGroup
+				for _, f := range threads {
+					wg.Add(1)
+					go func() { defer wg.Done(); f() }()
 				}
+				for _, i := range p {
+					if g.exited[i] {
+						continue // the thread stopped at a failed operation
+					}
+					g.turn[i] <- struct{}{}
+					<-g.ack
+				}
+				wg.Wait()
 				return false
 			})] = true
+			curGate = nil
 			return
 		}
-		for i := k; i < n; i++ {
-			perm[k], perm[i] = perm[i], perm[k]
-			rec(k + 1)
-			perm[k], perm[i] = perm[i], perm[k]
+		for i := 0; i < n; i++ {
+			if left[i] > 0 {
+				left[i]--
+				order = append(order, i)
+				rec()
+				order = order[:len(order)-1]
+				left[i]++
+			}
 		}
 	}
-	rec(0)
+	rec()
 	return out
 }
 
@@ -420,16 +497,17 @@ func TestCheck(t *testing.T) {
 			os.Exit(2)
 		}
 		type ritem struct {
-			name string
-			body schedx.Body
-			n    int
+			name   string
+			body   schedx.Body
+			n      int
+			counts []int
 		}
 		var ritems []ritem
 		for _, sc := range dscenarios(quick) {
-			ritems = append(ritems, ritem{sc.name, dbody(sc), len(sc.threads)})
+			ritems = append(ritems, ritem{sc.name, dbody(sc), len(sc.threads), nil})
 		}
 		for _, sc := range scs {
-			ritems = append(ritems, ritem{sc.name, body(sc), len(sc.threads)})
+			ritems = append(ritems, ritem{sc.name, body(sc), len(sc.threads), opCounts(sc.threads)})
 		}
 		for _, sc := range ritems {
 			if sc.name != v.Scenario {
@@ -441,7 +519,7 @@ func TestCheck(t *testing.T) {
 				fmt.Sscan(f, &n)
 				prefix = append(prefix, n)
 			}
-			refs := serialRefs(t, sc.body, sc.n)
+			refs := serialRefs(t, sc.body, sc.n, sc.counts)
 			ref := sc.body(t, sequential)
 			_, out, dl := schedx.RunOnce(t, schedx.Config{Body: sc.body}, prefix)
 			if dl || !refs[out] {
@@ -467,20 +545,21 @@ func TestCheck(t *testing.T) {
 		body    schedx.Body
 		threads any
 		n       int
+		counts  []int
 	}
 	var items []item
 	for _, sc := range dscenarios(quick) {
-		items = append(items, item{sc.name, dbody(sc), sc.threads, len(sc.threads)})
+		items = append(items, item{sc.name, dbody(sc), sc.threads, len(sc.threads), nil})
 	}
 	for _, sc := range scs {
-		items = append(items, item{sc.name, body(sc), sc.threads, len(sc.threads)})
+		items = append(items, item{sc.name, body(sc), sc.threads, len(sc.threads), opCounts(sc.threads)})
 	}
 	for i, sc := range items {
 		if o := os.Getenv("C09_ONLY"); o != "" && !strings.HasPrefix(sc.name, o) {
 			continue
 		}
 		ref := sc.body(t, sequential)
-		refs := serialRefs(t, sc.body, sc.n)
+		refs := serialRefs(t, sc.body, sc.n, sc.counts)
 		if os.Getenv("C09_DEBUG") != "" {
 			fmt.Fprintf(os.Stderr, "REF %s: %s\n", sc.name, ref)
 			s0, _, _ := schedx.RunOnce(t, schedx.Config{Body: sc.body}, nil)
